@@ -15,10 +15,14 @@ var (
 	locA = []byte("ab")
 	locB = []byte("cd")
 	locF = []byte("ef") // never assigned to a client: "foreign"
+	locG = []byte("aa") // foreign as well, and sorting before the clients' locations
 )
 
 var safeLabels = []string{"a", "b", "www", "mail", "ab", "abc", "a-b", "a_b", "0", "z9", "x", "Www", "MAIL"}
-var unsafeLabels = []string{"a!b", "x\x80", "~", "a b", "A+", "\x01"}
+var unsafeLabels = []string{"a!b", "~", "a b", "A+", "\x01"}
+
+// labels with bytes above 0x7f: an invalid UTF-8 byte, UTF-8 upper- and lower-case letters
+var hiLabels = []string{"x\x80", "\xc3\x89", "\xc3\xa9", "\xff\xfe"}
 
 func N(labels ...string) Name {
 	n := Name{}
@@ -31,6 +35,9 @@ func N(labels ...string) Name {
 func (g *Gen) label() string { return safeLabels[g.R.Intn(len(safeLabels))] }
 
 func (g *Gen) someLabel() string {
+	if g.HiByte && g.R.Chance(1, 3) {
+		return hiLabels[g.R.Intn(len(hiLabels))]
+	}
 	if g.R.Chance(1, 6) {
 		return unsafeLabels[g.R.Intn(len(unsafeLabels))]
 	}
@@ -45,13 +52,15 @@ func (g *Gen) loc(located bool) []byte {
 	if !located {
 		return nil
 	}
-	switch g.R.Pick([]int{5, 2, 2, 1}) {
+	switch g.R.Pick([]int{10, 4, 4, 1, 1}) {
 	case 1:
 		return locA
 	case 2:
 		return locB
 	case 3:
 		return locF
+	case 4:
+		return locG
 	}
 	return nil
 }
@@ -211,13 +220,14 @@ func (g *Gen) zone(z Name, o Opts, depth int) {
 	if o.Nested && depth < 2 {
 		// a delegated child: NS only, with or without glue (in-zone target), sometimes located NS
 		d := z.Child("deleg")
-		withGlue := g.R.Chance(1, 2)
+		withGlue := g.R.Chance(1, 2) || o.MixedRd
 		ip := ""
 		if withGlue {
 			ip = g.randIP()
 		}
 		tgt := d.Child("ns")
-		if o.MixedRd && g.R.Chance(1, 2) {
+		if o.MixedRd {
+			// the target written with upper-case letters: its glue is stored under the lower-cased name
 			tgt = d.Child("NS")
 		}
 		g.NS(d, tgt, "", ip, nil)
@@ -280,6 +290,8 @@ func Generate(r *hlib.Rng, class string, mtime int64) *Gen {
 	case "mixedrd":
 		o.MixedRd = true
 		o.Nested = true
+	case "hibyte":
+		g.HiByte = true
 	case "odd":
 		o.Odd = true
 		o.Located = r.Chance(1, 2)
